@@ -1400,6 +1400,8 @@ def compare(interp, op, a, b, state, node):
                     return r if name == 'in' else T.not_(r)
                 return Sym(name, _t(a), tuple(_t(e) for e in seq))
             return Sym(name, _t(a), b)
+        if isinstance(b, tuple) and not b:
+            return name == 'notin'
         if isinstance(b, tuple) and not T.is_const(a):
             return Sym(name, _t(a), tuple(_t(e) for e in b))
         if isinstance(b, tuple) and isinstance(a, Ref):
